@@ -309,3 +309,137 @@ func vK01gNewTarget() {
 	vAssert(toks[1] == "(", "a `new` callee whose member chain is rooted in a call or import() is parenthesised (otherwise the call's arguments become the arguments of new)")
 	vReach("end")
 }
+
+// vK01gExtends: the heritage of a class is a LeftHandSideExpression
+// (ECMA-262 15.7 ClassHeritage). Whatever expression the AST holds there, the
+// printed tokens between `extends` and the class body must, outside brackets,
+// consist only of primary expressions, member links and `new`: any unary,
+// update, binary, conditional, assignment, arrow, await or yield operator
+// there must have been wrapped in parentheses.
+func vK01gExtends() {
+	opts := Options{MinifyWhitespace: vBool()}
+	p := hNewPrinter(opts)
+	a, b, c := hIdent(0), hIdent(1), hIdent(2)
+	var e js_ast.Expr
+	switch vChoose(24) {
+	case 0:
+		e = a
+	case 1:
+		e = js_ast.Expr{Data: &js_ast.EDot{Target: a, Name: "p"}}
+	case 2:
+		e = js_ast.Expr{Data: &js_ast.ECall{Target: a}}
+	case 3:
+		e = js_ast.Expr{Data: &js_ast.ENew{Target: a}}
+	case 4:
+		e = js_ast.Expr{Data: &js_ast.EUnary{Op: js_ast.UnOpPostInc, Value: a}}
+	case 5:
+		e = js_ast.Expr{Data: &js_ast.EUnary{Op: js_ast.UnOpPostDec, Value: a}}
+	case 6:
+		e = js_ast.Expr{Data: &js_ast.EUnary{Op: js_ast.UnOpNeg, Value: a}}
+	case 7:
+		e = js_ast.Expr{Data: &js_ast.EUnary{Op: js_ast.UnOpNot, Value: a}}
+	case 8:
+		e = js_ast.Expr{Data: &js_ast.EUnary{Op: js_ast.UnOpTypeof, Value: a}}
+	case 9:
+		e = js_ast.Expr{Data: &js_ast.EBinary{Op: js_ast.BinOpComma, Left: a, Right: b}}
+	case 10:
+		e = js_ast.Expr{Data: &js_ast.EBinary{Op: js_ast.BinOpAdd, Left: a, Right: b}}
+	case 11:
+		e = js_ast.Expr{Data: &js_ast.EIf{Test: a, Yes: b, No: c}}
+	case 12:
+		e = js_ast.Expr{Data: &js_ast.EBinary{Op: js_ast.BinOpAssign, Left: a, Right: b}}
+	case 13:
+		e = js_ast.Expr{Data: &js_ast.EArrow{PreferExpr: true, Body: js_ast.FnBody{Block: js_ast.SBlock{Stmts: []js_ast.Stmt{{Data: &js_ast.SReturn{ValueOrNil: a}}}}}}}
+	case 14:
+		e = js_ast.Expr{Data: &js_ast.EAwait{Value: a}}
+	case 15:
+		e = js_ast.Expr{Data: &js_ast.EYield{ValueOrNil: a}}
+	case 16:
+		e = js_ast.Expr{Data: &js_ast.EBinary{Op: js_ast.BinOpNullishCoalescing, Left: a, Right: b}}
+	case 17:
+		e = js_ast.Expr{Data: &js_ast.EUnary{Op: js_ast.UnOpPreInc, Value: a}}
+	case 18:
+		e = js_ast.Expr{Data: &js_ast.EBinary{Op: js_ast.BinOpIn, Left: a, Right: b}}
+	case 19:
+		e = js_ast.Expr{Data: &js_ast.ENumber{Value: -1}}
+	case 20:
+		e = js_ast.Expr{Data: &js_ast.EDot{Target: a, Name: "p", OptionalChain: js_ast.OptionalChainStart}}
+	case 21:
+		e = js_ast.Expr{Data: &js_ast.EBinary{Op: js_ast.BinOpPow, Left: a, Right: b}}
+	case 22:
+		e = js_ast.Expr{Data: &js_ast.EUnary{Op: js_ast.UnOpVoid, Value: a}}
+	case 23:
+		e = js_ast.Expr{Data: &js_ast.EBinary{Op: js_ast.BinOpLogicalAnd, Left: a, Right: b}}
+	}
+	if vParam("LINK", 1) != 0 && vBool() {
+		// a member link around it: the heritage is `<e>.q`
+		e = js_ast.Expr{Data: &js_ast.EDot{Target: e, Name: "q"}}
+	}
+	asStmt := vBool()
+	class := js_ast.Class{ExtendsOrNil: e}
+	if asStmt {
+		class.Name = &ast.LocRef{Ref: ast.Ref{SourceIndex: 0, InnerIndex: 2}}
+		p.printStmt(js_ast.Stmt{Data: &js_ast.SClass{Class: class}}, 0)
+	} else {
+		p.printExpr(js_ast.Expr{Data: &js_ast.EClass{Class: class}}, js_ast.LComma, 0)
+	}
+	vObserveStr("js", string(p.js))
+	toks, ok, why := hTokenize(p.js)
+	vAssert(ok, "output tokenizes: "+why)
+	start := -1
+	for i, t := range toks {
+		if t == "extends" {
+			start = i + 1
+			break
+		}
+	}
+	vAssert(start > 0, "class has an extends clause")
+	// the class body is the last brace group
+	end := len(toks) - 1
+	for end >= 0 && toks[end] != "}" {
+		end--
+	}
+	depth := 0
+	open := -1
+	for i := end; i >= start; i-- {
+		if toks[i] == "}" {
+			depth++
+		} else if toks[i] == "{" {
+			depth--
+			if depth == 0 {
+				open = i
+				break
+			}
+		}
+	}
+	vAssert(open >= start, "class body found")
+	depth = 0
+	for _, t := range toks[start:open] {
+		switch t {
+		case "(", "[", "{":
+			depth++
+			continue
+		case ")", "]", "}":
+			depth--
+			continue
+		}
+		if depth != 0 {
+			continue
+		}
+		okTok := false
+		switch {
+		case t == "." || t == "?.":
+			okTok = true
+		case hIsIdStart(t[0]):
+			switch t {
+			case "typeof", "void", "delete", "await", "yield", "in", "instanceof":
+			default:
+				okTok = true
+			}
+		case hIsDigit(t[0]) || t[0] == '"' || t[0] == '\'' || t[0] == '`':
+			okTok = true
+		}
+		vAssert(okTok, "outside brackets a class heritage holds only primary expressions, member links and `new` (ClassHeritage is a LeftHandSideExpression)")
+	}
+	vReach("end")
+}
